@@ -1082,7 +1082,7 @@ def teardown(ctx):
 
 
 def plan(tier):
-    m = 2 if tier == 'quick' else 60
+    m = 2 if tier == 'quick' else 40
     p = []
     for size in SIZES:
         for sup in SUPPORTS:
